@@ -829,8 +829,7 @@ func runWatchProperty(t *testing.T, prop string, rule string, gen func(r *rng) [
 
 	flush := func() {
 		if f != nil {
-			rep.CoqFiles = append(rep.CoqFiles, f.finish(t, dir))
-			rep.CaseFiles = append(rep.CaseFiles, writeJSONL(t, dir, f.name+".jsonl", jl))
+			f.finishSharded(t, dir, rep, jl, 400)
 			f, jl = nil, nil
 		}
 	}
